@@ -204,6 +204,26 @@ macro_rules! ckks_backend {
                                         }
                                     }
                                 }
+                                "add_ptz_into" | "sub_ptz_into" | "add_ptz_assign" | "sub_ptz_assign" | "mul_ptz_into" => {
+                                    // the plaintext is converted to limb form in its OWN radix pb first
+                                    let pb = gu(st, "pb", b as u64) as u32;
+                                    let w = &vecs[pvec];
+                                    let mut pt_rnx = CKKSPlaintextVecRnx::<f64>::alloc(n).unwrap();
+                                    encoder.encode_reim(&mut pt_rnx, &w.0, &w.1)?;
+                                    let mut pt_znx = alloc_pt_vec_znx(Degree(n as u32), Base2K(pb), pprec);
+                                    pt_rnx.to_znx(&mut pt_znx)?;
+                                    let src = if op.ends_with("_assign") { fd.clone() } else { va.clone() };
+                                    let comb = |f: &dyn Fn((f64, f64), (f64, f64)) -> (f64, f64), v: &Option<Cx>| -> Option<Cx> {
+                                        v.as_ref().map(|v| { let p: Vec<(f64, f64)> = (0..v.0.len()).map(|i| f((v.0[i], v.1[i]), (w.0[i], w.1[i]))).collect(); (p.iter().map(|t| t.0).collect(), p.iter().map(|t| t.1).collect()) })
+                                    };
+                                    match op.as_str() {
+                                        "add_ptz_into" => { newref = comb(&|p, q| (p.0 + q.0, p.1 + q.1), &src); into!(|dst: &mut CKKSCiphertext<Vec<u8>>| m.ckks_add_pt_vec_znx_into(dst, x, &pt_znx, sref)) }
+                                        "sub_ptz_into" => { newref = comb(&|p, q| (p.0 - q.0, p.1 - q.1), &src); into!(|dst: &mut CKKSCiphertext<Vec<u8>>| m.ckks_sub_pt_vec_znx_into(dst, x, &pt_znx, sref)) }
+                                        "add_ptz_assign" => { newref = comb(&|p, q| (p.0 + q.0, p.1 + q.1), &src); into!(|dst: &mut CKKSCiphertext<Vec<u8>>| m.ckks_add_pt_vec_znx_assign(dst, &pt_znx, sref)) }
+                                        "sub_ptz_assign" => { newref = comb(&|p, q| (p.0 - q.0, p.1 - q.1), &src); into!(|dst: &mut CKKSCiphertext<Vec<u8>>| m.ckks_sub_pt_vec_znx_assign(dst, &pt_znx, sref)) }
+                                        _ => { newref = comb(&|p, q| (p.0 * q.0 - p.1 * q.1, p.0 * q.1 + p.1 * q.0), &src); into!(|dst: &mut CKKSCiphertext<Vec<u8>>| m.ckks_mul_pt_vec_znx_into(dst, x, &pt_znx, sref)) }
+                                    }
+                                }
                                 "add_ptc_into" | "sub_ptc_into" | "add_ptc_assign" | "sub_ptc_assign" | "mul_ptc_into" | "mul_ptc_assign" | "mul_add_ptc" | "mul_sub_ptc" => {
                                     let cr = CKKSPlaintextCstRnx::<f64>::new(cst.0, cst.1);
                                     let w = (cst.0.unwrap_or(0.0), cst.1.unwrap_or(0.0));
